@@ -422,6 +422,8 @@ def apply_view(m, ops):
             a = a[tuple(slice(*s) if isinstance(s, list) else s for s in op[1])]
         elif op[0] == "T":
             a = a.T
+        elif op[0] == "perm":                     # axes permuted: gap-free in memory but neither C- nor F-contiguous
+            a = a.transpose(op[1]) if a.ndim == len(op[1]) else a
         elif op[0] == "field":
             a = a[op[1]]
         elif op[0] == "asarray":
